@@ -86,6 +86,20 @@ def step (st : St) (line : String) : IO St := do
       let q := bad.getD (0, 0); s!"transfer {op} threads={thr} nrF={p.nrF} ntF={p.ntF}: node ({q.1},{q.2}) differs from the model beyond 2^-40·S"
     let mut st := { st with stats := stats, worst := worst }
     -- implementation-only oracles
+    if kind == "cubic_r" then
+      -- C09 (theorem C09.fmg_cubic_r on the model): the FMG interpolation of samples of a cubic in r is the cubic, at every fine
+      -- node whose radial rule is the four-point one (odd rows 3 … nrF-4) and on the coarse rows; the harness evaluates
+      -- p(r) = 1 + r - 2 r² + 3 r³ in double (Horner), so the comparison is against the exact p with a rounding allowance
+      let cubic (r : Rat) : Rat := 1 + r * (1 + r * (-2 + 3 * r))
+      for i in [0:p.nrF] do
+        if i % 2 == 0 ∨ (3 ≤ i ∧ i + 4 ≤ p.nrF) then
+          for j in [0:p.ntF] do
+            let expect := cubic (st.radiiF.getD i 0)
+            let v := out.getD (i * p.ntF + j) 0
+            if Hex.rabs (v - expect) > Hex.twoPowNeg 30 * (Hex.rabs expect + 1) ∧ st.oracleFails < 5 then
+              IO.println s!"ORACLE C09 FMG interpolation does not reproduce a cubic in r at fine node ({i},{j}) (four-point radial rule): value {v} expected {expect} nrF={p.nrF} ntF={p.ntF} radiiF={st.radiiF.toList.take 12}"
+              st := { st with oracleFails := st.oracleFails + 1 }
+      return st
     if kind == "linear_r" ∨ kind == "linear_t" then
       for i in [0:p.nrF] do
         for j in [0:p.ntF] do
